@@ -3,7 +3,7 @@ from __future__ import annotations
 
 from .. import gen
 from ..core import Ctx, Result
-from ..pipeline import finalize_cov, mk_spec, qinit, run_pipeline
+from ..pipeline import LARGE_N, embed_positions, finalize_cov, mk_spec, qinit, run_pipeline
 
 DET = {"p_h_stoch": 0.0, "p_e": 0.0}
 PROFILES = [
@@ -63,6 +63,21 @@ def make_specs(ctx: Ctx, n):
             plan.append({"op": "rel-sim", "a": 1, "b": len(plan), "map": mp,
                          "scope": "period0" if stoch else "all", "what": what})
         specs.append(mk_spec(i, m, [], plan, label=label, reltol=None))
+    # an agent inside a very large batch behaves as it does in a small one: 12 agents alone, and the same 12 spread over a batch
+    # of tens of thousands that tiles them (more rows per period than 2^14 / 2^16)
+    r2 = ctx.rng("large")
+    for j in range(max(2, n // 25)):
+        m = gen.rand_model(r2, {**DET, "p_r": 0.7, "p_w": 1.0, "T": [1, 2], "max_cells": 600})
+        k = 12
+        init = qinit(gen.rand_initial_states(r2, m, k))
+        n_full = LARGE_N[(j + 1) % 2]
+        seed = r2.randrange(10**6)
+        target = "solve_and_simulate" if j % 2 else "simulate"
+        plan = [{"op": "simulate", "target": target, "init": init, "seed": seed, "vsrc": "own"},
+                {"op": "simulate", "target": target, "init": init, "seed": seed, "vsrc": "own",
+                 "embed": {"n_full": n_full, "positions": embed_positions(r2, k, n_full)}},
+                {"op": "rel-sim", "a": 1, "b": 2, "map": list(range(k)), "scope": "all", "what": "subset"}]
+        specs.append(mk_spec(len(specs), m, [], plan, label=f"deterministic, 12 agents alone and inside a batch of {n_full}", reltol=None))
     return specs
 
 
